@@ -1,4 +1,149 @@
-"""placeholder - replaced below"""
-def run_thorough(pid, mod):
-    from vlib.core import run_check
-    return run_check(pid, lambda repo, rep: mod.run(repo, rep), "thorough")
+"""Thorough tier = the quick rules on the tree under analysis PLUS the checker's
+own two-sided self-test, all static (nothing is executed):
+
+* breaking variants  - every kept seeded change and every revert-of-fix under
+  /verif/seeded whose MATRIX entry lists this property: the patch is applied to
+  a scratch copy of the CURRENT tree (outside /repo and /verif, removed
+  afterwards) and this property's check must report a VIOLATION there;
+* behaviour-preserving variants - computed from the current source with `ast`:
+  (K1) every file the check analysed is re-emitted by ast.unparse (all
+  formatting, comments and line numbers change), (K2) three comment lines are
+  prepended to every analysed file (pure line shift), (K3) every docstring and
+  bare string statement is removed; the check must stay silent on each (same
+  exit code as on the unmodified tree and no new violation).
+
+A variant whose patch no longer applies to the tree under analysis (because the
+tree itself was changed there) is reported as `stale` and not counted.  A
+breaking variant that is not reported, or a preserving variant that raises an
+alarm, makes the thorough run fail with exit 2 (SELFTEST-FAILED): the checker
+is then broken and nothing it says should be believed.
+"""
+from __future__ import annotations
+
+import ast
+import json
+import os
+import shutil
+import subprocess
+import sys
+import tempfile
+import time
+from concurrent.futures import ThreadPoolExecutor
+from pathlib import Path
+
+from .core import EVID_DIR, PY, REPO_ROOT, VERIF, run_check
+
+
+def _scratch() -> Path:
+    d = Path(tempfile.mkdtemp(prefix="verif-selftest."))
+    shutil.copytree(REPO_ROOT / "rdflib", d / "rdflib", ignore=shutil.ignore_patterns("__pycache__"))
+    return d
+
+
+def _run(pid: str, root: Path) -> tuple[int, list[str]]:
+    env = dict(os.environ, VERIF_REPO=str(root), VERIF_EVIDENCE_DIR=str(root / "ev"), VERIF_TIER="quick")
+    r = subprocess.run([PY, str(VERIF / "check.py"), pid, "--tier", "quick"], capture_output=True, text=True, env=env)
+    lines = [l for l in r.stdout.splitlines() if l.startswith(("VIOLATION", "ANALYSIS-ERROR", "KNOWN-FINDING"))]
+    return r.returncode, lines
+
+
+def _strip_docstrings(tree: ast.AST) -> ast.AST:
+    for n in ast.walk(tree):
+        body = getattr(n, "body", None)
+        if isinstance(body, list):
+            nb = [s for s in body if not (isinstance(s, ast.Expr) and isinstance(s.value, ast.Constant) and isinstance(s.value.value, str))]
+            if not nb:
+                nb = [ast.Pass()]
+            n.body = nb
+    return tree
+
+
+def _preserving(kind: str, files: list[str], root: Path) -> None:
+    for rel in files:
+        p = root / rel
+        src = p.read_text(encoding="utf-8")
+        if kind == "K1-unparse":
+            out = ast.unparse(ast.parse(src)) + "\n"
+        elif kind == "K2-lineshift":
+            out = "# selftest line shift 1\n# selftest line shift 2\n# selftest line shift 3\n" + src
+            # keep `from __future__` first: comments before it are fine
+        elif kind == "K3-nodocstrings":
+            out = ast.unparse(ast.fix_missing_locations(_strip_docstrings(ast.parse(src)))) + "\n"
+        else:
+            raise ValueError(kind)
+        p.write_text(out, encoding="utf-8")
+
+
+def run_thorough(pid: str, mod) -> int:
+    t0 = time.time()
+    rc = run_check(pid, lambda repo, rep: mod.run(repo, rep), "thorough")
+    ev_path = EVID_DIR / ("%s.json" % pid)
+    if rc == 2:
+        return rc
+    ev = json.load(open(ev_path))
+    analysed_files = list(ev["coverage"].get("files_with_rule_instances", []))
+    # baseline on the tree under analysis
+    base_rc, base_lines = rc, []
+    mx_path = VERIF / "seeded" / "MATRIX.json"
+    mx = json.load(open(mx_path)) if mx_path.exists() else {}
+    breaking = sorted(s for s, m in mx.items() if pid in m.get("caught_by", []))
+    keeps = ["K1-unparse", "K2-lineshift", "K3-nodocstrings"]
+
+    def do_break(sid: str):
+        d = _scratch()
+        try:
+            subprocess.run(["git", "init", "-q", "."], cwd=d, capture_output=True)
+            r = subprocess.run(["git", "apply", "--whitespace=nowarn", str(VERIF / "seeded" / sid / "patch.diff")], cwd=d, capture_output=True, text=True)
+            if r.returncode != 0:
+                return sid, "stale", "patch does not apply to the tree under analysis"
+            c, lines = _run(pid, d)
+            viol = [l for l in lines if l.startswith("VIOLATION")]
+            if c == 1 and viol:
+                return sid, "fired", viol[0].split("# ", 1)[-1][:200]
+            return sid, "MISSED", "exit %d: %s" % (c, (lines or ["no report"])[0][:200])
+        finally:
+            shutil.rmtree(d, ignore_errors=True)
+
+    def do_keep(kind: str):
+        d = _scratch()
+        try:
+            _preserving(kind, [f for f in analysed_files if (d / f).exists()], d)
+            c, lines = _run(pid, d)
+            viol = [l for l in lines if l.startswith(("VIOLATION", "ANALYSIS-ERROR"))]
+            if c == base_rc and (c == 1 or not viol):
+                return kind, "silent", "exit %d as on the unmodified tree" % c
+            return kind, "FALSE-ALARM", "exit %d (unmodified tree: %d): %s" % (c, base_rc, (viol or ["?"])[0][:300])
+        finally:
+            shutil.rmtree(d, ignore_errors=True)
+
+    results = []
+    with ThreadPoolExecutor(max_workers=min(12, (os.cpu_count() or 4))) as ex:
+        fb = [ex.submit(do_break, s) for s in breaking]
+        fk = [ex.submit(do_keep, k) for k in keeps]
+        for f in fb + fk:
+            results.append(f.result())
+    failed = [r for r in results if r[1] in ("MISSED", "FALSE-ALARM")]
+    st = {
+        "breaking_variants": len(breaking),
+        "fired_as_expected": sum(1 for r in results if r[1] == "fired"),
+        "stale_variants": sum(1 for r in results if r[1] == "stale"),
+        "preserving_variants": len(keeps),
+        "silent_as_expected": sum(1 for r in results if r[1] == "silent"),
+        "files_rewritten_per_preserving_variant": len(analysed_files),
+        "results": [{"variant": a, "verdict": b, "detail": c} for a, b, c in results],
+        "wall_s": round(time.time() - t0, 1),
+    }
+    ev["coverage"]["selftest"] = st
+    ev["coverage"]["evaluations"] = ev["coverage"]["evaluations"] + len(results)
+    ev["wall_s"] = round(time.time() - t0, 3)
+    tmp = str(ev_path) + ".tmp"
+    json.dump(ev, open(tmp, "w"), indent=1)
+    os.replace(tmp, ev_path)
+    print("%s thorough self-test: %d breaking variant(s) (%d fired, %d stale), %d preserving variant(s) (%d silent), %.1fs" % (
+        pid, st["breaking_variants"], st["fired_as_expected"], st["stale_variants"], st["preserving_variants"], st["silent_as_expected"], st["wall_s"]))
+    for a, b, c in failed:
+        print("SELFTEST-FAILED property=%s variant=%s %s: %s" % (pid, a, b, c))
+    if failed and rc == 0:
+        print("ANALYSIS-ERROR property=%s the checker's self-test failed (%d variant(s)); its verdicts are not to be trusted" % (pid, len(failed)))
+        return 2
+    return rc
